@@ -374,7 +374,7 @@ impl Scenario for Canonical {
     }
     fn generate(&self, rng: &mut Rng, tier: Tier, run: u64) -> Value {
         let huge = rng.chance(1);
-        let gigantic = rng.below(2000) == 0;
+        let gigantic = rng.below(3500) == 0;
         let size = if gigantic { SizeClass::Gigantic } else if huge { SizeClass::Huge } else { draw_size(rng, 0) };
         let ic = if gigantic { *rng.pick(&[1u8, 2, 4]) } else { draw_ic(rng, huge) };
         let a = draw_archive(rng, size, ic);
